@@ -30,6 +30,7 @@ func init() {
 		ruleZ14(c, "C12.Z14")
 		// a READ that takes block 0 for the block of a hole returns the log header as file data
 		ruleNullSource(c, "C12.Z15")
+		ruleReadClamp(c, "C12.Z16")
 		ruleL2f(c, "C12.Z13", func(e string) bool { return strings.HasSuffix(e, "NFSPROC3_READ") }, 2)
 	}
 }
@@ -564,11 +565,27 @@ func ruleZ3(c *Ctx, id string) {
 						side = br.False
 					}
 					polOK := (op == token.LSS || op == token.LEQ || op == token.GEQ || op == token.GTR) && (side == st.Block() || side.Dominates(st.Block()))
+					// a bound that is the size of the block is exclusive: index 4096 is outside the buffer
+					if kb, isk := constIntDeep(bound); isk && kb == constOfPkg(P, "github.com/goose-lang/primitive/disk", "BlockSize") && (op == token.LEQ || op == token.GTR) {
+						R.Fail(id, "inode.Resize|clearing loop stops before the end of the buffer", P.Pos(br.Block.Instrs[len(br.Block.Instrs)-1].Pos()), "index < BlockSize", "the loop admits index == BlockSize: a store behind the end of the 4096-byte buffer - the server panics on every unaligned truncation, with the inode locked")
+					}
 					R.Check(polOK, id, "inode.Resize|clearing loop runs while index < bound", P.Pos(br.Block.Instrs[len(br.Block.Instrs)-1].Pos()), "the zero store lies on the side of the loop test where the index is below the bound", "index "+op.String()+" bound", "the loop test is the wrong way round: the body never runs (or runs past the block), the bytes behind the new end of file stay and reappear when the file grows")
 				}
 				if nb > 0 {
 					// the index advances: it is a loop variable incremented by a positive constant
 					adv := false
+					// "for i := range s": the index of the round is phi + 1, and that sum is what the phi takes next
+					if bo, isB := stripConv(ia.Index).(*ssa.BinOp); isB && bo.Op == token.ADD {
+						if ph, isP := stripConv(bo.X).(*ssa.Phi); isP {
+							if k, isk := constInt(bo.Y); isk && k > 0 {
+								for _, e := range ph.Edges {
+									if stripConv(e) == ssa.Value(bo) {
+										adv = true
+									}
+								}
+							}
+						}
+					}
 					if ph, isP := stripConv(ia.Index).(*ssa.Phi); isP {
 						for _, e := range ph.Edges {
 							if bo, isB := stripConv(e).(*ssa.BinOp); isB && bo.Op == token.ADD {
@@ -578,6 +595,40 @@ func ruleZ3(c *Ctx, id string) {
 								if k, isk := constInt(bo.X); isk && k > 0 && stripConv(bo.Y) == ssa.Value(ph) {
 									adv = true
 								}
+							}
+						}
+					}
+					// where the clearing starts: at the new size's offset in its block, in the block that holds it - the
+					// index starts at sz % BlockSize and the buffer is that of block sz / BlockSize
+					if ph, isP := stripConv(ia.Index).(*ssa.Phi); isP {
+						bsz := constOfPkg(P, "github.com/goose-lang/primitive/disk", "BlockSize")
+						var base ssa.Value
+						startOK := false
+						for i, e := range ph.Edges {
+							if ph.Block().Dominates(ph.Block().Preds[i]) {
+								continue // the back edge
+							}
+							if bo, isB := stripConv(e).(*ssa.BinOp); isB && bo.Op == token.REM {
+								if k, isk := constIntDeep(bo.Y); isk && k == bsz {
+									startOK, base = true, stripConv(bo.X)
+								}
+							}
+						}
+						R.Check(startOK, id, "inode.Resize|clearing starts at the new end of file", P.Pos(st.Pos()), "the index starts at <new size> % BlockSize", "phi initialised with size % BlockSize", "the clearing does not start at the new size's offset in its block: bytes in front of the new end are wiped, or bytes behind it are kept and reappear when the file grows")
+						if startOK {
+							blkOK, nb2 := true, 0
+							for _, bc := range P.CallsIn(fn, funcIs(V.bmap)) {
+								nb2++
+								a := stripConv(argN(bc, 1))
+								bo, isB := a.(*ssa.BinOp)
+								if !isB || bo.Op != token.QUO || stripConv(bo.X) != base {
+									blkOK = false
+								} else if k, isk := constIntDeep(bo.Y); !isk || k != bsz {
+									blkOK = false
+								}
+							}
+							if nb2 > 0 {
+								R.Check(blkOK, id, "inode.Resize|clearing in the block of the new end of file", P.Pos(st.Pos()), "the block mapped is <new size> / BlockSize", "bmap(size / BlockSize)", "the tail is cleared in another block than the one that holds the new end of file")
 							}
 						}
 					}
@@ -1152,4 +1203,73 @@ func ruleZ14(c *Ctx, id string) {
 	}
 	R.Analysed[FuncName(V.Resize)] = true
 	R.Check(covered, id, "inode.Resize|ShrinkSize covers the old size", P.Pos(pos.Pos()), "a value stored into ShrinkSize derives from the size the file had when Resize was called", fmt.Sprintf("%d store(s) to ShrinkSize, %d store(s) to Size", n, len(sizeStores)), "Resize derives ShrinkSize from the new size only: after a truncation the blocks between the new and the old size are not freed (nothing else raises ShrinkSize reliably); they stay linked and show their old bytes when the file grows again")
+}
+
+// ruleReadClamp: Inode.Read maps (and, for a hole, allocates) every block it
+// passes.  It must not pass the end of the file: the number of bytes its loop
+// covers is clamped to Size - offset.  Without the clamp a READ over the end
+// links blocks behind the file's size - ShrinkSize never covers them, no
+// truncation or removal frees them - and returns bytes that are not part of
+// the file.
+func ruleReadClamp(c *Ctx, id string) {
+	V, P, R := c.V, c.P, c.R
+	R.Rule(id, "Inode.Read stops at the end of the file: the bound of its block loop can take the value Size - offset (a clamp of the requested count)", 1)
+	rd := V.InodeRead
+	if rd == nil || len(rd.Params) < 3 {
+		return
+	}
+	isClamp := func(v ssa.Value) bool {
+		bo, ok := stripConv(v).(*ssa.BinOp)
+		if !ok || bo.Op != token.SUB {
+			return false
+		}
+		nm, fl, _, isElem := loadedField(bo.X)
+		return !isElem && nm == V.Inode && fl == "Size"
+	}
+	found, nLoops := false, 0
+	for _, br := range branches(rd) {
+		last := br.Block.Instrs[len(br.Block.Instrs)-1]
+		if br.Cond.X == nil || br.Cond.Y == nil || !reachableFrom(last, last) {
+			continue
+		}
+		switch br.Cond.Op {
+		case token.LSS, token.LEQ, token.GTR, token.GEQ:
+		default:
+			continue
+		}
+		nLoops++
+		for _, side := range []ssa.Value{br.Cond.X, br.Cond.Y} {
+			seen := map[ssa.Value]bool{}
+			var w func(v ssa.Value, d int)
+			w = func(v ssa.Value, d int) {
+				v = stripConv(v)
+				if v == nil || seen[v] || d > 6 {
+					return
+				}
+				seen[v] = true
+				if isClamp(v) {
+					found = true
+				}
+				if ph, ok := v.(*ssa.Phi); ok {
+					for _, e := range ph.Edges {
+						w(e, d+1)
+					}
+				}
+				if cl, ok := v.(*ssa.Call); ok {
+					if g := staticCallee(cl); g != nil && g.Name() == "Min" {
+						for _, a := range cl.Call.Args {
+							w(a, d+1)
+						}
+					}
+				}
+			}
+			w(side, 0)
+		}
+	}
+	R.Analysed[FuncName(rd)] = true
+	if nLoops == 0 {
+		R.Undecided(id, "inode.Read|count clamped to the file's size", P.Pos(rd.Pos()), "Inode.Read has a block loop bounded by a comparison", "no loop test found")
+		return
+	}
+	R.Check(found, id, "inode.Read|count clamped to the file's size", P.Pos(rd.Pos()), "one of the values the loop bound can take is Size - offset", "clamp found", "the loop covers the requested count whatever the file's size: a READ over the end maps - and for holes allocates and links - blocks behind the size, which nothing ever frees, and returns bytes that are not part of the file")
 }
